@@ -177,6 +177,14 @@ theorem zEffs_attrs_held : ∀ (ss : List AState), zEffs (ss.flatMap AState.held
   | s :: ss => by
     simp only [List.flatMap_cons, zEffs_append, zEffs_attr_held, zEffs_attrs_held ss]
 
+theorem zEffs_wrapH (h : Option Nat) : ∀ (l : List (Nat × Option RState)), zEffs (l.map (wrapH h)) = zEffs l
+  | [] => rfl
+  | z :: l => by
+    have ih := zEffs_wrapH h l
+    simp only [zEffs, List.map_cons, List.flatMap_cons] at ih ⊢
+    rw [ih]
+    cases hz : z.2 <;> simp [wrapH, hz, optEffs, effsOf]
+
 /-- dropping a state hands exactly its effects over to the zombies, in the same order -/
 theorem zEffs_held : ∀ (t : RState), zEffs t.held = effsOf t := by
   intro t
@@ -193,6 +201,11 @@ theorem zEffs_held : ∀ (t : RState), zEffs t.held = effsOf t := by
   | rows e en sel lists row ks items _ => simp [RState.held, zEffs, effsOf, optEffs]
   | rowCons k ix r rest ihr ihrest => simp only [RState.held, zEffs_append, ihr, ihrest, effsOf]
   | rowNil => rfl
+  | errb e m s fb kid _ => simp [RState.held, zEffs, effsOf, optEffs]
+  | res e c x n last hook =>
+    cases last <;> cases hook <;> simp [RState.held, zEffs, effsOf, optEffs]
+  | hooked h inner ih => simp only [RState.held, zEffs_wrapH, ih, effsOf]
+  | errTok s => rfl
 
 /-! ## dropping effects -/
 
@@ -402,6 +415,18 @@ theorem GoodP.locals_nil {P : EP} : ∀ (v : View) (t : RState), GoodP P v t →
   | forRows en sel lists row _ => intro t h; cases t <;> simp only [GoodP] at h
   | eb kid _ => intro t h; cases t <;> simp only [GoodP] at h
   | res c x => intro t h; cases t <;> simp only [GoodP] at h
+
+/-- not a value that only tasks hold (`hooked`, `errTok`) -/
+def RState.plain : RState → Bool
+  | .hooked _ _ => false
+  | .errTok _ => false
+  | _ => true
+
+theorem clearTok_plain (st : St) {t : RState} (h : t.plain = true) : clearTok st t = st := by
+  cases t <;> first | rfl | simp [RState.plain] at h
+
+theorem GoodP.plain {P : EP} (v : View) (t : RState) (h : GoodP P v t) : t.plain = true := by
+  cases v <;> cases t <;> first | rfl | simp only [GoodP] at h
 
 theorem dropState_eq {st : St} {t : RState} (h : t.locals = []) : dropState st t = dropAll st t.held := by
   simp only [dropState, h, killAll]
